@@ -264,11 +264,74 @@ class Where(Family):
     serves = ["C08", "C19"]
 
     def kinds(self):
-        return ["ragged,ragged", "ragged,scalar", "scalar,ragged"]
+        return ["ragged,ragged", "ragged,scalar", "scalar,ragged", "lazy,ragged", "ragged,lazy"]
+
+    def _run_lazy(self, ctx, kind):
+        """one operand is a lazily selected, not yet materialised array (rows of the mask's lengths addressed through a RaggedView2 into a larger buffer;
+        its get_flat_indices is the callee contract idx[S'(r)+c] = start(r) + c*step): the result has the MASK's geometry and picks the view's cells"""
+        from npstructures import RaggedArray
+        from npstructures.raggedshape import RaggedView2
+        from npstructures.arrayfunctions import where
+        from .ragged import sym_view2
+        g = sym_ragged(ctx, "o")                         # the materialised operand; its geometry is also the mask's
+        size = g.S(g.n)
+        mk = SymArr.symbolic("mask", size, "bool", bool, assume_len=False)
+        mask = RaggedArray(mk, g.obj)
+        v = sym_view2(ctx)
+        ctx.assume(v.n == g.n)
+        ctx.assume_forall("view rows have the mask's lengths", lambda r: z3.Implies(z3.And(0 <= r, r < g.n), v.L(r) == g.L(r)))
+        kbuf = z3.Int("kbuf")
+        ctx.assume(kbuf >= 0)
+        D = SymArr.symbolic("D", kbuf, "elem", np.int64, assume_len=False)
+        ctx.assume_forall("wf(view)", lambda r, c: z3.Implies(z3.And(0 <= r, r < v.n, 0 <= c, c < v.L(r)),
+                                                              z3.And(0 <= v.S(r) + c * v.step, v.S(r) + c * v.step < kbuf)), arity=2)
+        lazy = RaggedArray(D, v.obj)
+        flat = sym_shape(ctx, "flat")
+        ctx.assume(flat.n == v.n)
+        ctx.assume_forall("flat.L", lambda r: z3.Implies(z3.And(0 <= r, r < v.n), flat.L(r) == v.L(r)))
+        ctx.assume_forall("same lengths => same starts (lemma library)", lambda r: z3.Implies(z3.And(0 <= r, r <= g.n), flat.S(r) == g.S(r)))
+        idx = SymArr.symbolic("gather", flat.S(flat.n), "int", assume_len=False)
+        ctx.assume_forall("address map", lambda r, c: z3.Implies(z3.And(0 <= r, r < v.n, 0 <= c, c < v.L(r)),
+                                                                 idx.fn(flat.S(r) + c) == v.S(r) + c * v.step), arity=2)
+        rowof = z3.Function(fresh_name("rowof"), z3.IntSort(), z3.IntSort())
+        ctx.assume_forall("rowof", lambda j: z3.Implies(z3.And(0 <= j, j < flat.S(flat.n)), z3.And(
+            0 <= rowof(j), rowof(j) < v.n, flat.S(rowof(j)) <= j, j < flat.S(rowof(j)) + flat.L(rowof(j)))))
+        ctx.derivers.append(lambda j: [rowof(j), j - flat.S(rowof(j))])
+        ctx.add_index(g.n, flat.n)
+        # the lazily selected operand reports as many cells as the mask has (sum of equal row lengths): induction over the rows
+        from ..sym.theory import prefix_sum
+        psv = prefix_sum(lazy._shape.lengths)
+        telescoping(ctx, g, mask._shape.lengths)
+        q = z3.Int("q")
+        ctx.prove("lemma.base: no cells before the first row", psv(0) == g.S(0), pool=[z3.IntVal(0)], kind="lemma")
+        ctx.prove("lemma.step: one more row of the mask's length", z3.Implies(z3.And(0 <= q, q < g.n, psv(q) == g.S(q)), psv(q + 1) == g.S(q + 1)), pool=[q, q + 1], kind="lemma")
+        ctx.assume_forall("the view's running cell count is the mask's (by induction on the rows)", lambda q_: z3.Implies(z3.And(0 <= q_, q_ <= g.n), psv(q_) == g.S(q_)))
+        old = RaggedView2.__dict__["get_flat_indices"]
+        RaggedView2.get_flat_indices = lambda self_, do_split=False: (idx, flat.obj)
+        try:
+            out = where(mask, lazy, g.ra) if kind == "lazy,ragged" else where(mask, g.ra, lazy)
+        finally:
+            RaggedView2.get_flat_indices = old
+        r = g.row()
+        sh = out._shape
+        ctx.prove("post.mask's geometry: same number of rows, row r starts at S(r) and has L(r) cells",
+                  z3.And(dim_term(sh.starts.shape_[0]) == g.n, dim_term(sh.lengths.shape_[0]) == g.n, sh.starts.get(r) == g.S(r), sh.lengths.get(r) == g.L(r)),
+                  pool=[r, r + 1, g.n])
+        c = z3.Int("c")
+        ctx.skolem(z3.And(0 <= c, c < g.L(r)))
+        j = g.S(r) + c
+        lz, other = D.fn(v.S(r) + c * v.step), g.D.fn(j)
+        xe, ye = (lz, other) if kind == "lazy,ragged" else (other, lz)
+        od = out._RaggedBase__data
+        ctx.prove("post.cell-wise choice: cell (r, c) of the result is cell (r, c) of x or of y (the lazily selected operand's own cell)",
+                  z3.And(dim_term(od.shape_[0]) == size, od.get(j) == z3.If(mk.fn(j), xe, ye)), pool=[r, r + 1, c, j, g.n, flat.S(r) + c])
+        ctx.prove("post.operands not modified", z3.BoolVal(g.D.buf.writes == 0 and D.buf.writes == 0 and mk.buf.writes == 0))
 
     def run(self, ctx, kind):
         from npstructures import RaggedArray
         from npstructures.arrayfunctions import where
+        if "lazy" in kind:
+            return self._run_lazy(ctx, kind)
         g = sym_ragged(ctx, "x")
         size = g.S(g.n)
         mk = SymArr.symbolic("mask", size, "bool", bool, assume_len=False)
@@ -287,6 +350,53 @@ class Where(Family):
         ctx.prove("post.cell-wise choice", out.ravel().get(j) == z3.If(mk.fn(j), xe, ye))
         ctx.prove("post.mask's geometry", z3.BoolVal(out._shape is g.obj))
         ctx.prove("post.operands not modified", z3.BoolVal(g.D.buf.writes == 0 and yd.buf.writes == 0 and mk.buf.writes == 0))
+
+    def concretise(self, kind, model, ghost):
+        return {"lengths": [2, 0, 3, 1], "derive": "reverse" if "lazy" in kind else "none"}
+
+    def concrete(self, case):
+        """np.where(mask, x, y) cell by cell against Python lists; x / y fresh or lazily derived (reversed, tail, index list) and not yet materialised"""
+        from npstructures import RaggedArray
+        ls = case["lengths"]
+
+        def rows_of(base):
+            out, v = [], base
+            for l in ls:
+                out.append([v + i for i in range(l)])
+                v += l
+            return out
+
+        def build(rows, derive):
+            if derive == "reverse":
+                return RaggedArray(rows[::-1])[::-1]
+            if derive == "tail":
+                return RaggedArray([[77, 78]] + rows)[1:]
+            if derive == "list":
+                idx = list(range(len(rows)))[::-1]
+                return RaggedArray([rows[i] for i in idx])[idx]
+            return RaggedArray(rows)
+        xr, yr = rows_of(100), rows_of(500)
+        mrows = [[(r + c) % 2 == 0 for c in range(l)] for r, l in enumerate(ls)]
+        exp = [[a if m else b for m, a, b in zip(mr, xa, ya)] for mr, xa, ya in zip(mrows, xr, yr)]
+        if not any(ls):
+            return None
+        for which in ("x", "y"):
+            mask = RaggedArray([m for mr in mrows for m in mr], ls, dtype=bool)
+            x = build(xr, case["derive"] if which == "x" else "none")
+            y = build(yr, case["derive"] if which == "y" else "none")
+            try:
+                got = np.where(mask, x, y).tolist()
+            except Exception as e:
+                return {"msg": f"np.where with {which} derived by {case['derive']} (row lengths {ls}) raised {type(e).__name__}: {e}", "sig": "raised:where"}
+            if got != exp:
+                return {"msg": f"np.where with {which} derived by {case['derive']} (row lengths {ls}): {got}, expected {exp}", "sig": "wrong:where"}
+
+    def bounded_cases(self, tier, seed):
+        from ..bounded.common import length_vectors
+        for ls in length_vectors(4, 3):
+            if len(ls) >= 1:
+                for d in ("none", "reverse", "tail", "list"):
+                    yield {"lengths": ls, "derive": d}
 
 
 @register
